@@ -70,7 +70,9 @@ func keepBlocks(data []byte, kh, kc, kk, kr bool) []byte {
 
 var dirBase = time.Date(2025, 1, 1, 0, 0, 0, 0, time.UTC)
 
-func dtm(c int64) time.Time                         { return dirBase.Add(time.Duration(c) * time.Second) }
+// one tick of the logical clock is 7 ms: distinct ticks must stay distinct for the tool (a change that rounds file times to
+// seconds merges them and shows up as a difference)
+func dtm(c int64) time.Time                         { return dirBase.Add(time.Duration(c) * 7 * time.Millisecond) }
 func (l lfs) FS() fs.FS                             { return l.m }
 func (l lfs) Stat(name string) (os.FileInfo, error) { return l.m.Stat(name) }
 func (l lfs) WriteFile(name string, content []byte) error {
